@@ -165,9 +165,18 @@ def invariant_obligations(ctx, facts, rule=None):
     ctx.ob(R("KEYCTOR"), "QualifierKey(_) is constructed only in into_key", len(intokey) == 1 and nonder == intokey, fn=intokey[0] if intokey else "", detail=str(nonder))
     if len(intokey) == 1:
         IK = intokey[0]
+        # the classification may be an enum (Lower / Mixed) or a flag next to the text (`is_lower: bool`)
+        madt = facts.adts.get("qualifiers::MixedQualifierKey", {})
+        mfields = madt.get("variants", [{}])[0].get("fields", []) if madt.get("kind") == "Struct" else []
+        flagf = [f_["name"] for f_ in mfields if f_["ty"] == "bool"]
         for o in paths.outcomes(facts, IK):
             var = [a for a in o["atoms"] if a[0] == "is"]
             vname = var[0][2] if var else "?"
+            if not var and len(flagf) == 1:
+                # `if !self.is_lower { s.make_ascii_lowercase() }`: flag true plays Lower, flag false plays Mixed
+                fl = [a for a in o["atoms"] if a[0] == "other" and a[1].startswith("arg1.%s " % flagf[0])]
+                if len(fl) == 1:
+                    vname = "Mixed" if fl[0][1].endswith("('eq', 0)") else "Lower" if fl[0][1].endswith("('ne', (0,))") else "?"
             lowered = any(e[0] == "call" and e[1].endswith("::make_ascii_lowercase") for e in o["effects"]) or any(c[0].endswith("::to_ascii_lowercase") for c in o["calls"])
             if vname == "Mixed":
                 # the lowered var is what is wrapped
@@ -185,6 +194,34 @@ def invariant_obligations(ctx, facts, rule=None):
         KC = next(iter(mags))
         for o in paths.outcomes(facts, KC):
             r = o["ret"]
+            if r[0] == "ok" and r[1][0] == "agg" and r[1][1][1] == "qualifiers::MixedQualifierKey" and len(flagf) == 1 and flagf[0] in r[1][1][3]:
+                # struct form: { text, flag }.  The flag may be true only for text without [A-Z]: it must be all(chars(text), P)
+                # with P's character class free of upper-case letters (then `true` plays Lower, `false` plays Mixed)
+                names = list(r[1][1][3])
+                flagv = r[1][2][names.index(flagf[0])]
+                textv = [r[1][2][i] for i, n_ in enumerate(names) if n_ != flagf[0] and r[1][2][i] == ("arg", 1)]
+                valid = [a for a in o["atoms"] if a[0] == "pred" and a[3] is True and a[1] in facts.bodies and a[2] == (("Input", 1),)]
+                okvalid = False
+                for a in valid:
+                    c = boolsum.strpred_canon(summ.summary(a[1]), facts)
+                    if c["nonempty"] and c["all"] == VALID_KEY_SET and not c["other"]:
+                        okvalid = True
+                ctx.ob(R("KEYCTOR"), "Lower(_) is produced only after the valid-key guard [0-9A-Za-z._-]+", okvalid and bool(textv), fn=KC, site=fn_site(facts, KC), detail="; ".join(show_canon(a) for a in o["atoms"])[:200])
+                ctx.ob(R("KEYCTOR"), "Mixed(_) is produced only after the valid-key guard [0-9A-Za-z._-]+", okvalid and bool(textv), fn=KC, site=fn_site(facts, KC), detail="(flag form: one construction site for both)")
+                AZ = sum(1 << c for c in range(65, 91))
+                okl = False
+                fv = flagv
+                while fv[0] == "var" and len(fv) > 2:
+                    fv = fv[2]
+                if fv[0] == "call" and fv[1] == "std::iter::Iterator::all" and len(fv[2]) == 2 and fv[2][1][0] in ("closure", "fn"):
+                    src = fv[2][0]
+                    while src[0] == "var" and len(src) > 2:
+                        src = src[2]
+                    if src[0] == "call" and src[1].endswith("::chars") and src[2] == (("arg", 1),):
+                        cs = boolsum.charset(boolsum.pred_formula(facts, summ, fv[2][1][1]), facts)
+                        okl = (cs & AZ) == 0
+                ctx.ob(R("KEYCTOR"), "Lower(_) only under a guard whose character class excludes [A-Z]", okl, fn=KC, site=fn_site(facts, KC), detail="flag = %s" % nshow(flagv)[:120])
+                continue
             if r[0] == "ok" and r[1][0] == "agg" and r[1][1][1] == "qualifiers::MixedQualifierKey":
                 variant = r[1][1][2]
                 valid = [a for a in o["atoms"] if a[0] == "pred" and a[3] is True and a[1] in facts.bodies and a[2] == (("Input", 1),)]
@@ -313,7 +350,8 @@ def invariant_obligations(ctx, facts, rule=None):
     oks = False
     if len(sclos) == 1:
         ct = norm(facts.body(sclos[0]).resolve_local(0))
-        oks = ct[0] == "call" and ct[1].endswith("::unwrap") and ct[2][0][0] == "call" and ct[2][0][1] in (PC, "std::cmp::PartialOrd::partial_cmp")
+        oks = (ct[0] == "call" and ct[1].endswith("::unwrap") and ct[2][0][0] == "call" and ct[2][0][1] in (PC, "std::cmp::PartialOrd::partial_cmp")) \
+            or (ct[0] == "some" and ct[1][0] == "call" and ct[1][1] in (PC, "std::cmp::PartialOrd::partial_cmp"))   # unwrap() reads as the Some payload
         st = norm(facts.body(SEARCH).resolve_local(0))
         oks = oks and st[0] == "call" and st[1].endswith("::binary_search_by") and models.field_path(st[2][0]) == fname
     ctx.ob(R("CMP-LOWER"), "search = self.%s.binary_search_by(|(qk, _)| qk.partial_cmp(&key).unwrap())" % fname, oks, fn=SEARCH, site=fn_site(facts, SEARCH), detail="")
